@@ -121,6 +121,13 @@ ShareTimeout(h, s) ==
     /\ blk' = [blk EXCEPT ![h].to = @ \cup {s}] /\ obs' = NoObs
     /\ UNCHANGED <<stored, sampledS, meta, width, now, peers, phase, queue, ongoing, timedOut, promised, headH, hiPrunable, numPrunable>>
 
+\* a malformed answer: the share counts as not retrieved (the worker stops with a fatal error; at the
+\* very least the block can never be marked sampled)
+ShareBad(h, s) ==
+    /\ h \in ongoing /\ s \in blk[h].shares \ (blk[h].ok \cup blk[h].to)
+    /\ blk' = [blk EXCEPT ![h].to = @ \cup {s}] /\ obs' = NoObs
+    /\ UNCHANGED <<stored, sampledS, meta, width, now, peers, phase, queue, ongoing, timedOut, promised, headH, hiPrunable, numPrunable>>
+
 \* the block's future completes: marked sampled unless a share timed out
 Complete(h) ==
     /\ h \in ongoing /\ blk[h].ok \cup blk[h].to = blk[h].shares
